@@ -757,3 +757,78 @@ func vh_rows_cells() {
 	vAssert(it.Close() == nil, "C04/cells/no-error-for-a-well-formed-body")
 	vObserve("rows", len(out))
 }
+
+// A tuple column followed by a plain column: the tuple expands to one destination per element
+// (Scan / Scanner) or one map entry per element (MapScan / SliceMap), the following column keeps
+// its own cell.
+func vh_rows_tuple_cells() {
+	n := 1 + vChoose("rows", vBound("max_rows"))
+	type row struct{ a, b, i int32 }
+	rows := make([]row, n)
+	e := &vEnc{}
+	for k := range rows {
+		rows[k] = row{vI32("a"), vI32("b"), vI32("i")}
+		var tup []byte
+		tup = append(tup, 0, 0, 0, 4)
+		tup = append(tup, refBE(int64(rows[k].a), 4)...)
+		tup = append(tup, 0, 0, 0, 4)
+		tup = append(tup, refBE(int64(rows[k].b), 4)...)
+		e.bytes(tup, false)
+		e.bytes(refBE(int64(rows[k].i), 4), false)
+	}
+	nat := func(t Type) NativeType { return NativeType{proto: 4, typ: t} }
+	cols := []ColumnInfo{
+		{Keyspace: "k", Table: "tb", Name: "t", TypeInfo: TupleTypeInfo{NativeType: nat(TypeTuple), Elems: []TypeInfo{nat(TypeInt), nat(TypeInt)}}},
+		{Keyspace: "k", Table: "tb", Name: "i", TypeInfo: nat(TypeInt)},
+	}
+	it := &Iter{framer: &framer{proto: 4, buf: e.b, header: &frameHeader{version: 0x84, op: opResult}}, numRows: n,
+		meta: resultMetadata{columns: cols, colCount: 2, actualColCount: 3}}
+	var out []row
+	switch vBound("consumer") {
+	case 0:
+		for k := 0; k <= n; k++ {
+			var a, b, i int
+			if !it.Scan(&a, &b, &i) {
+				break
+			}
+			out = append(out, row{int32(a), int32(b), int32(i)})
+		}
+	case 1:
+		sc := it.Scanner()
+		for k := 0; k <= n && sc.Next(); k++ {
+			var a, b, i int
+			if err := sc.Scan(&a, &b, &i); err != nil {
+				vAssert(false, "C04/cells/no-error-for-a-well-formed-body")
+				break
+			}
+			out = append(out, row{int32(a), int32(b), int32(i)})
+		}
+	case 2:
+		for k := 0; k <= n; k++ {
+			m := map[string]interface{}{}
+			if !it.MapScan(m) {
+				break
+			}
+			a, _ := m["t[0]"].(int)
+			b, _ := m["t[1]"].(int)
+			i, _ := m["i"].(int)
+			out = append(out, row{int32(a), int32(b), int32(i)})
+		}
+	default:
+		ms, err := it.SliceMap()
+		vAssert(err == nil, "C04/cells/no-error-for-a-well-formed-body")
+		for _, m := range ms {
+			a, _ := m["t[0]"].(int)
+			b, _ := m["t[1]"].(int)
+			i, _ := m["i"].(int)
+			out = append(out, row{int32(a), int32(b), int32(i)})
+		}
+	}
+	vAssert(len(out) == n, "C04/cells/every-row-is-delivered")
+	ok := len(out) == n
+	for k := 0; ok && k < n; k++ {
+		ok = out[k] == rows[k]
+	}
+	vAssert(ok, "C04/cells/tuple-elements-and-the-following-column-hold-what-the-frame-encodes")
+	vObserve("rows", len(out))
+}
